@@ -25,6 +25,7 @@ import (
 	distrtypes "github.com/cosmos/cosmos-sdk/x/distribution/types"
 	crisistypes "github.com/cosmos/cosmos-sdk/x/crisis/types"
 	govv1 "github.com/cosmos/cosmos-sdk/x/gov/types/v1"
+	stakingtypes "github.com/cosmos/cosmos-sdk/x/staking/types"
 	"github.com/cosmos/cosmos-sdk/x/group"
 	groupkeeper "github.com/cosmos/cosmos-sdk/x/group/keeper"
 	paramproposal "github.com/cosmos/cosmos-sdk/x/params/types/proposal"
@@ -367,6 +368,12 @@ func (bc *BuildCtx) Build(s *MsgSpec) sdk.Msg {
 			panic(err)
 		}
 		return m
+	case "staking.Delegate":
+		return stakingtypes.NewMsgDelegate(mustAcc(s.f("delegator")), bc.Env.ValOper(), sdk.NewInt64Coin(sdk.DefaultBondDenom, atoi64(s.f("amount"))))
+	case "staking.Undelegate":
+		return stakingtypes.NewMsgUndelegate(mustAcc(s.f("delegator")), bc.Env.ValOper(), sdk.NewInt64Coin(sdk.DefaultBondDenom, atoi64(s.f("amount"))))
+	case "distr.WithdrawReward":
+		return distrtypes.NewMsgWithdrawDelegatorReward(mustAcc(s.f("delegator")), bc.Env.ValOper())
 	case "crisis.VerifyInvariant":
 		return &crisistypes.MsgVerifyInvariant{Sender: s.f("sender"), InvariantModuleName: s.f("module"), InvariantRoute: s.f("route")}
 	case "gov.SubmitSendEnabled":
@@ -523,3 +530,9 @@ func GroupPolicyAddr(n uint64) string {
 	}
 	return sdk.AccAddress(ac.Address()).String()
 }
+
+func mustAcc(a string) sdk.AccAddress { x, _ := sdk.AccAddressFromBech32(a); return x }
+func atoi64(v string) int64          { n, _ := strconv.ParseInt(v, 10, 64); return n }
+
+// ValOper: the operator address of the simulated chain's validator (GenesisStateWithValSet derives it from the consensus address).
+func (e *Env) ValOper() sdk.ValAddress { return sdk.ValAddress(e.Val.Address) }
